@@ -46,24 +46,25 @@ def probe(work):
 
     def one(ib):
         i, batch = ib
-        info, _ = cprobe.run_cppcheck_batch(work, "cc%d" % i, lang, plat_args, hdr["preamble_cc"],
+        info, errs = cprobe.run_cppcheck_batch(work, "cc%d" % i, lang, plat_args, hdr["preamble_cc"],
                                             [c["cc"] for c in batch], hdr["epilogue"])
         if hdr["triple"]:
             cl = cprobe.run_clang_batch(work, "w%d" % i, lang, hdr["triple"], hdr["preamble_w"],
                                         [c["w"] for c in batch], hdr["epilogue"])
         else:
             cl = [None] * len(batch)
-        return info, cl
+        return info, cl, errs
 
     results = cprobe.pmap(one, list(enumerate(batches)), workers=int(os.environ.get("C10_PROBE_WORKERS", "3")))
     obs = []
-    for batch, (info, cl) in zip(batches, results):
-        for c, inf, ce in zip(batch, info, cl):
+    for batch, (info, cl, errs) in zip(batches, results):
+        errd = dict(errs)
+        for j, (c, inf, ce) in enumerate(zip(batch, info, cl)):
             kind, val = known_value(inf)
             obs.append({"id": c["id"], "expr": c["expr"], "tok": (inf or {}).get("tok") or "",
                         "vkind": kind, "val": list(val),
                         "cc_type": "%s/%s" % ((inf or {}).get("type") or "", (inf or {}).get("sign") or ""),
-                        "clang": "skip" if not c["w"] else ("fail" if ce else "ok"), "clang_msg": ce or ""})
+                        "clang": "skip" if not c["w"] else ("fail" if ce else "ok"), "clang_msg": ce or "", "cppcheck_error": errd.get(j, "")})
     vlib.write_ndjson(os.path.join(work, "obs.ndjson"), obs)
 
 
